@@ -8,7 +8,7 @@ strings   : an atom (bare or double-quoted) or `(cp n n …)` (code points; used
 json      : `null | true | false | (int n) | (float bits) | (str S) | (arr j…) | (obj (S j)…)`
 class     : `(k IDENT MODULE NAME)`
 value     : `N | T | F | (i n) | (f bits) | (s S) | (x CLASS S) | (l v…) | (o CLASS (S v)…)`
-env       : `(env (mod S ok|notFound|importErr|valueErr|typeErr)… (attr S S missing|(nonclass KIND)|(cls CLASS T|F T|F))…)`
+env       : `(env (mod S ok|notFound|importErr|valueErr|typeErr)… (attr S S missing|(nonclass KIND)|(cls CLASS ser reg [impl]))…)` (T|F each; impl defaults to T)
 -/
 namespace KrroodVerif.Drive.JsonIO
 open KrroodVerif.Json
@@ -65,7 +65,9 @@ def parseKind : Sexp → Option AttrKind
      | "function" => some NonClassKind.function | "typevar" => some .typevar | "module" => some .module
      | "instance" => some .instance | _ => none).map .nonClass
   | .list [.atom "cls", c, s, r] => do
-    let c ← parseCls c; let s ← s.asBool?; let r ← r.asBool?; pure (.cls c s r)
+    let c ← parseCls c; let s ← s.asBool?; let r ← r.asBool?; pure (.cls c s r true)
+  | .list [.atom "cls", c, s, r, i] => do
+    let c ← parseCls c; let s ← s.asBool?; let r ← r.asBool?; let i ← i.asBool?; pure (.cls c s r i)
   | _ => none
 
 structure EnvData where
@@ -106,7 +108,7 @@ def docErrName : DocErr → String
 
 def excName : Exc → String
   | .attributeError => "AttributeError" | .valueError => "ValueError" | .typeError => "TypeError"
-  | .importError => "ImportError"
+  | .importError => "ImportError" | .notImplementedError => "NotImplementedError"
 
 def showOutcome : Outcome → String
   | .err e => docErrName e
@@ -163,7 +165,8 @@ def trigIds (q : Quirks) (env : Env) (tag : Option Json) : List String :=
   (if q.importValueErr && trigImportValueErr env tag then ["F-C19-2"] else []) ++
   (if q.importTypeErr && trigImportTypeErr env tag then ["F-C19-3"] else []) ++
   (if q.nonClassAttr && trigNonClass env tag then ["F-C19-4"] else []) ++
-  (if q.importErr && trigImportErr env tag then ["F-C19-5"] else [])
+  (if q.importErr && trigImportErr env tag then ["F-C19-5"] else []) ++
+  (if q.abstractSerializer && trigAbstract env tag then ["F-C19-6"] else [])
 
 def tagCovered (d : EnvData) : Option Json → Bool
   | some (.str s) => match rsplit s with | some (m, c) => d.covers m c | none => true
